@@ -1447,6 +1447,8 @@ class Fxp():
     # bit level operators
 
     def __rshift__(self, n):
+        if isinstance(n, np.generic) or (isinstance(n, np.ndarray) and n.ndim == 0):
+            n = int(n)      # (a NumPy integer count would turn the sizes of the result into NumPy integers, or wrap in its own type)
         if self.config.shifting == 'expand':
             min_pow2 = utils.min_pow2(self.val)     # minimum power of 2 in raw val
             if min_pow2 is not None and n > min_pow2:
@@ -1458,12 +1460,15 @@ class Fxp():
             y.set_val(self.val >> np.array(n - n_frac_expansion, dtype=self.val.dtype), raw=True)   # set raw val shifted
         else:
             y = self.deepcopy()
-            y.val = y.val >> np.array(n, dtype=y.val.dtype)
+            # (through set_val: the value views `real` / `imag` follow, and the raw value stays an array)
+            y.set_val(y.val >> np.array(n, dtype=y.val.dtype), raw=True, vdtype=self.vdtype)
         return y
 
     __irshift__ = __rshift__
 
     def __lshift__(self, n):
+        if isinstance(n, np.generic) or (isinstance(n, np.ndarray) and n.ndim == 0):
+            n = int(n)
         if self.config.shifting == 'expand':
             n_word = max(self.n_word, int(np.max(np.ceil(np.log2(np.abs(self.val)+0.5)))) + self.signed + n)
         else:
